@@ -321,7 +321,7 @@ def check_gate(chk, prog, env, model):
                 reg_bad += rb
     chk.rule('C01.verdict-gate', 'every path of jwt_verify_sig (14 algs x providers) leaving the error flag clear passed a successful '
                                  'verification result (EVP_DigestVerify==1 / gnutls verify>=0 / exact compare==0) with the right operands',
-             n_paths, bad, floor=100)
+             n_paths, bad, floor=20)
     chk.coverage['accepting_paths'] = n_accept
     chk.verify_accepts = accepts
     chk.rule('C01.digest-scheme', 'hash/padding selected on accepting paths equals RFC 7518 for the algorithm', dig_n, dig_bad, floor=20)
